@@ -368,7 +368,13 @@ class XYData(Generic[TData]):
 
     @classmethod
     def _unpickle(cls, args: tuple[Any, ...], kwargs: dict[str, Any]) -> Self:
-        return cls(*args, **kwargs)
+        unit_keys = (_UNIT_DESCRIPTION_X, _UNIT_DESCRIPTION_Y)
+        missing = [key for key in unit_keys if key not in kwargs["extended_properties"]]
+        xy_data = cls(*args, **kwargs)
+        for key in missing:
+            # The constructor adds empty units entries, which the pickled object did not have.
+            del xy_data._extended_properties[key]
+        return xy_data
 
     def __repr__(self) -> str:
         """Return repr(self)."""
